@@ -716,3 +716,46 @@ def a_r5_recomputed_and_picklable(schema: Schema, rep: Report):
                             if isinstance(r, ast.Return) and isinstance(r.value, ast.Call) and isinstance(r.value.func, ast.Name) and r.value.func.id in local_classes and local_classes[r.value.func.id][0] is f:
                                 bad = (r.value.func.id, r)
     rep.check("A-R6", "utils.UTC:class-at-module-level", bad is None, f"utils.UTC can be an instance of {bad[0]}, a class defined inside a function: pickle raises \"Can't pickle local object\" for every model holding a date or time" if bad else "", f"{m.relpath}:{bad[1].lineno if bad else 1}")
+
+
+def a_r9_default_copy_protocol(schema: Schema, rep: Report):
+    """copy / deepcopy / pickle reproduce the instance as it is"""
+    rep.rule("A-R9", "copy, deepcopy and pickle reproduce an equal model through the default protocol (the instance dict and the list members, untouched): no model class - Aggregate included - defines __reduce__ / __reduce_ex__ / __copy__ / __deepcopy__ / __getnewargs(_ex)__ / __setstate__ that sends the stored values through the class constructor again (values would be converted a second time - `&amp;amp;` decoded twice - and whatever lives only in the instance dict, such as the stapled trnuid / cltcookie, would be lost)")
+    HOOKS = ("__reduce__", "__reduce_ex__", "__copy__", "__deepcopy__", "__getnewargs__", "__getnewargs_ex__", "__setstate__", "__getstate__")
+    p = schema.p
+    n = 0
+    seen = set()
+    classes = [schema.aggregate, schema.elementlist] + list(schema.exported().values())
+    for ci in classes:
+        if ci is None or id(ci) in seen:
+            continue
+        seen.add(id(ci))
+        for hook in HOOKS:
+            fn = ci.own_func(hook)
+            if fn is None:
+                continue
+            n += 1
+            rebuilds = None
+            for r in [x for x in own_nodes(fn) if isinstance(x, ast.Return) and x.value is not None]:
+                v = r.value
+                # (callable, args...) whose callable constructs the class, or a direct cls(...) / type(self)(...)
+                cands = []
+                if isinstance(v, ast.Tuple) and v.elts:
+                    cands.append(v.elts[0])
+                if isinstance(v, ast.Call):
+                    cands.append(v.func)
+                for c in cands:
+                    t = text(c)
+                    if t in ("self.__class__", "type(self)", "cls", ci.name):
+                        rebuilds = t
+                    elif isinstance(c, ast.Name):
+                        tgt = p.resolve(ci.module, c.id)
+                        node = getattr(tgt, "node", None)
+                        if isinstance(node, ast.FunctionDef) and any(isinstance(x, ast.Call) and isinstance(x.func, ast.Name) and x.func.id in params_of(node)[:1] for x in ast.walk(node)):
+                            rebuilds = f"{c.id}() -> {params_of(node)[0]}(...)"
+            if rebuilds is not None:
+                rep.check("A-R9", f"{ci.name}.{hook}:keeps-stored-values", False, f"{ci.name}.{hook} rebuilds the copy through the class constructor ({rebuilds}): every stored value is converted a second time (text that still looks like an entity changes) and attributes that live only in the instance dict are dropped - the copy is not equal to the original", f"{ci.mod.relpath}:{fn.lineno}")
+            else:
+                rep.note(f"A-R9 undecided: {ci.name} defines {hook}; whether it reproduces the instance was not decided")
+    if n == 0:
+        rep.check("A-R9", "models:default-copy-protocol", True, "no model class customises copying / pickling", "")
